@@ -984,6 +984,9 @@ def run(ctx):
         seen = {json.dumps([s["chain"], s["arr"]], sort_keys=True) for s in done}
         done += [s for s in part if json.dumps([s["chain"], s["arr"]], sort_keys=True) not in seen]
     ctx.exhaustive = True
+    # the order of a TLC dump depends on the scheduling of its workers: canonical order first, so that the seeded
+    # shuffles / draws below give the same run for the same VERIF_SEED
+    done.sort(key=lambda s: json.dumps([s["chain"], s["arr"]], sort_keys=True))
     per_exp, per_kb, per_kind = {}, {}, {}
     for s in done:
         per_exp[s["exp"]] = per_exp.get(s["exp"], 0) + 1
@@ -1040,6 +1043,7 @@ def run(ctx):
         cdone += [s for s in part if s["dom"] and json.dumps([s["arr"], s["tol"]], sort_keys=True) not in seen]
     if 10 * ctx.cov["compress_cases_outside_domain"] > len(cdone):
         raise Vacuity(f"MCCompress: {ctx.cov['compress_cases_outside_domain']} enumerated cases outside the domain")
+    cdone.sort(key=lambda s: json.dumps([s["fam"], s["arr"], s["tol"]], sort_keys=True))
     per_ckb, per_fam, per_sit = {}, {}, {}
     for s in cdone:
         per_fam[s["fam"]] = per_fam.get(s["fam"], 0) + 1
@@ -1085,13 +1089,14 @@ def run(ctx):
     ctx.cov["compress_model_classes"] = classes
     if min(classes.values()) == 0:
         raise Vacuity(f"MCCompress: a class of the float branch is not enumerated: {classes}")
-    # memory representations: the native one and (quick) two more of the case's reps, drawn with the seed / (thorough) all
+    # memory representations: the native one and two more of the case's reps, drawn with the seed (every
+    # representation is drawn hundreds of times; all of them for every case would triple the events TLC judges)
     ccases = [{k: s[k] for k in ("fam", "arr", "tol", "reps")} for s in cdone]
     for c in ccases:
         if "native" not in c["reps"]:
             raise Vacuity("MCCompress: a case without the native representation")
         others = [r for r in c["reps"] if r != "native"]
-        c["reps"] = ["native"] + (sorted(ctx.rng.sample(others, 2)) if quick else others)
+        c["reps"] = ["native"] + sorted(ctx.rng.sample(others, 2))
     crep = {}
     for c in ccases:
         for r in c["reps"]:
@@ -1117,11 +1122,16 @@ def run(ctx):
     ctx.sample({"s2_compress_case": ccases[0]})
 
     # ================================================================= columns with histories of read accesses
-    res, states = helpers.dump_states(ctx, "MCColumn", "MCCol.cfg" if quick else "MCCol_thorough.cfg", stage="S1",
-                                      workers=12, timeout=2400)
-    hdone = [s for s in states if s["done"]]
-    if not hdone or 2 * len(hdone) != res.distinct:
-        raise RuntimeError(f"MCColumn: {len(hdone)} evaluated states of {res.distinct}")
+    # thorough: more columns with histories of <= 2 accesses, and the quick columns with histories of <= 3
+    hdone = []
+    for cfg in (["MCCol.cfg"] if quick else ["MCCol_thorough.cfg", "MCCol_thorough3.cfg"]):
+        res, states = helpers.dump_states(ctx, "MCColumn", cfg, stage="S1", workers=12, timeout=2400)
+        part = [s for s in states if s["done"]]
+        if not part or 2 * len(part) != res.distinct:
+            raise RuntimeError(f"MCColumn/{cfg}: {len(part)} evaluated states of {res.distinct}")
+        seen = {json.dumps([s["col"], s["hist"]], sort_keys=True) for s in hdone}
+        hdone += [s for s in part if json.dumps([s["col"], s["hist"]], sort_keys=True) not in seen]
+    hdone.sort(key=lambda s: json.dumps([s["col"], s["hist"]], sort_keys=True))
     per_hsit, per_len = {}, {}
     for s in hdone:
         per_len[len(s["hist"])] = per_len.get(len(s["hist"]), 0) + 1
